@@ -120,6 +120,21 @@ func scenarios(tier string) []*hn.Scenario {
 			}
 		}
 	}
+	// a sink in the middle of a pipeline (validation only constrains the last two nodes): a sink that
+	// filters the event there is a complete sink; one that passes it on is not an end at all
+	for _, ms := range []hn.Script{P, R, D, E} {
+		for cancel := 0; cancel <= 2; cancel++ {
+			for _, pr := range [][2]int{{-1, -1}, {1, 1}, {2, 1}, {1, 2}} {
+				b := hn.NewBuilder(fmt.Sprintf("mid-sink s1=%s cancel=%d thr=%d/%d", ms, cancel, pr[0], pr[1])).
+					Node("m1", "m1", el.NodeTypeFormatter, P).Node("s1", "s1", el.NodeTypeSink, ms).
+					Node("m2", "m2", el.NodeTypeFormatterFilter, P).Node("s2", "s2", el.NodeTypeSink, D).
+					Pipe("t1", "p0", "m1", "s1", "m2", "s2")
+				sc := b.Scenario()
+				sc.Cancel, sc.Thr, sc.ThrSinks, sc.Bound = cancel, pr[0], pr[1], 2
+				out = append(out, sc)
+			}
+		}
+	}
 	// shared formatter and sink ids between the pipelines (same id reported twice)
 	for _, v := range [][]int{{0, 0}, {0, 1}, {0, 3}, {0, 0, 1}} {
 		for cancel := 0; cancel <= 1; cancel++ {
